@@ -31,6 +31,7 @@ class Func:
         self.blocks = {}
         self.lines = text_lines
         self.srclines = {}       # block -> [source line of each statement or None] (dumps made with -Zmir-include-spans)
+        self.debug = {}          # source variable name -> [MIR locals bound to it, in declaration order]
 
 
 def split_top(s, sep=","):
@@ -100,6 +101,10 @@ def parse_mir(path):
                 if cm.group(1):
                     srcline = (cm.group(1), int(cm.group(2)))
                 s = s[:cm.start()].rstrip()
+            m = re.match(r"^debug (\w+) => (_\d+);$", s)
+            if m:
+                cur.debug.setdefault(m.group(1), []).append(m.group(2))
+                continue
             m = re.match(r"^let (mut )?(_\d+): (.*);$", s)
             if m:
                 cur.locals[m.group(2)] = m.group(3)
